@@ -211,19 +211,19 @@ def run_for_native(vc):
     """timed run against a scripted clock: each step costs `cost` seconds of fake time"""
     from contracts.common import Posterior, make_sampler, quiet
     import inference.mcmc.base as base
-    kind = vc.choice("sampler", ["gibbs", "hmc"])
+    kind = vc.choice("sampler", ["gibbs", "hmc", "ensemble", "pca"])
     cost = vc.choice("cost", [2e-3, 0.3, 0.999, 1.0, 1.5, 7.0, 61.0, 400.0])
-    minutes = vc.choice("minutes", [0.02, 0.5, 1.0, 3.0])
+    minutes = vc.choice("minutes", [0.02, 0.5, 1.0, 3.0, 0.0])
     minutes = min(minutes, cost * 1500 / 60.0)      # keep the number of simulated steps small
     seed = vc.int("seed", lo=0, hi=1000)
     rng = np.random.default_rng(seed)
     post = Posterior("gauss", 2, rng)
     ch = make_sampler(kind, post, 2, rng, seed=seed)
     history = vc.choice("steps_already_in_the_chain", [0, 0, 300, 4000])
-    if kind == "hmc":
+    if kind in ("hmc", "ensemble"):
         history = min(history, 200)
     if history:
-        quiet(ch.advance, history)           # a timed run on a chain that already holds samples
+        quiet(ch.advance, history if kind != "ensemble" else history // 20)      # a timed run on a chain that already holds samples
 
     class Clock:
         now = 1000.0
@@ -241,8 +241,10 @@ def run_for_native(vc):
     def step():
         Clock.now += cost
         steps[0] += 1
-        # the run may overshoot by about one status interval (one second of steps)
-        if steps[0] > (minutes * 60 + 2.0) / cost + 50:
+        # the run may overshoot by about one status interval (one second's worth of stored samples: for the ensemble
+        # sampler one step stores n_walkers samples, so its interval is n_walkers times longer)
+        slack = 2.0 * (ch.n_walkers if kind == "ensemble" else 1)
+        if steps[0] > (minutes * 60 + slack) / cost + 50:
             raise RuntimeError("far more steps than the budget allows")
         return real_step()
 
@@ -253,13 +255,17 @@ def run_for_native(vc):
         n0 = ch.chain_length
         try:
             quiet(ch.run_for, minutes=minutes)
-        except (RuntimeError, ZeroDivisionError) as e:
+        except (RuntimeError, ZeroDivisionError, AttributeError, UnboundLocalError) as e:
+            vc.inputs["error"] = f"{type(e).__name__}: {e}"[:160]
             vc.ensures("timed_run_terminates_normally", False)
             return
     finally:
         base.time = saved
-    vc.ensures("took_whole_steps", ch.chain_length - n0 == steps[0] and steps[0] >= 1)
+    per_step = 1 if kind != "ensemble" else ch.n_walkers
+    vc.ensures("took_whole_steps", ch.chain_length - n0 == steps[0] * per_step and (steps[0] >= 1 or minutes == 0.0))
     vc.ensures("budget_used_up", Clock.now - 1000.0 >= minutes * 60.0)
+    if minutes == 0.0:
+        vc.ensures("zero_budget_takes_no_step", steps[0] == 0)
 
 
 from contracts.mcmc_gibbs import gibbs_take_step
